@@ -280,43 +280,43 @@ Qed.
 Definition st_of (text : str) (cur : Z) : vst := mkvst (mkbuf text cur) None None false.
 
 Lemma to_cut_empty b o :
-  is_linew (ttype o) = false ->
+  is_linew (ttype o) = false -> is_block (ttype o) = false ->
   snd (operator_range (bdoc b) o) <= fst (operator_range (bdoc b) o) ->
   to_cut b o = Some (btext b, bcur b, mkcd [] (selection_type (ttype o))).
 Proof.
-  intros Hl H. unfold to_cut.
+  intros Hl Hb H. unfold to_cut.
   destruct (operator_range (bdoc b) o) as [f t]. cbn [fst snd] in H.
-  rewrite Hl. cbn [negb andb]. destruct (t <=? f) eqn:E; [reflexivity|lia].
+  rewrite Hl, Hb. cbn [negb andb orb]. destruct (t <=? f) eqn:E; [reflexivity|lia].
 Qed.
 
 Lemma set_doc_same b : 0 <= bcur b -> set_doc (btext b) (bcur b) = b.
 Proof. intros H. unfold set_doc. rewrite Z.max_r by lia. destruct b; reflexivity. Qed.
 
 Lemma op_delete_empty delete_only with_register st o ev :
-  is_linew (ttype o) = false -> 0 <= bcur (vbuf st) ->
+  is_linew (ttype o) = false -> is_block (ttype o) = false -> 0 <= bcur (vbuf st) ->
   snd (operator_range (bdoc (vbuf st)) o) <= fst (operator_range (bdoc (vbuf st)) o) ->
   op_delete delete_only with_register st o ev =
   (0, mkvst (vbuf st) (vclip st) (vreg st) (if delete_only then vins st else true)).
 Proof.
-  intros Hl Hc H. unfold op_delete. rewrite to_cut_empty by assumption.
+  intros Hl Hb Hc H. unfold op_delete. rewrite to_cut_empty by assumption.
   cbn [ctext nonempty]. rewrite set_doc_same by exact Hc.
   destruct delete_only; reflexivity.
 Qed.
 
 Lemma op_yank_empty st o ev :
-  is_linew (ttype o) = false ->
+  is_linew (ttype o) = false -> is_block (ttype o) = false ->
   snd (operator_range (bdoc (vbuf st)) o) <= fst (operator_range (bdoc (vbuf st)) o) ->
   op_yank st o ev = (0, st).
 Proof.
-  intros Hl H. unfold op_yank. rewrite to_cut_empty by assumption. reflexivity.
+  intros Hl Hb H. unfold op_yank. rewrite to_cut_empty by assumption. reflexivity.
 Qed.
 
 Lemma op_yank_reg_empty st o ev :
-  is_linew (ttype o) = false ->
+  is_linew (ttype o) = false -> is_block (ttype o) = false ->
   snd (operator_range (bdoc (vbuf st)) o) <= fst (operator_range (bdoc (vbuf st)) o) ->
   snd (op_yank_reg st o ev) = st.
 Proof.
-  intros Hl H. unfold op_yank_reg. destruct (nth_error (ekeys ev) 1); [|reflexivity].
+  intros Hl Hb H. unfold op_yank_reg. destruct (nth_error (ekeys ev) 1); [|reflexivity].
   destruct (is_regname z); [|reflexivity]. rewrite to_cut_empty by assumption. reflexivity.
 Qed.
 
